@@ -71,6 +71,16 @@ def streams(seed, tier):
                     st = dict(exec=[I(nm)] + fo, code=[a, b, Z(3)], bool=[True, False], int=[2, 0], index=[(1, 3), (0, 7)], name=["n"], float=[fbits(1.0)])
                     cases.append(case_run(len(cases) % 2, state(**st), 0, 1))
                     cases.append(case_run(len(cases) % 2, state(**st), 0, 4))
+    # a list runs ALL its elements in order: pairs that cancel when executed (T.DUP T.POP, T.SWAP T.SWAP, NOOP) are still elements - the
+    # first of them may be the ARGUMENT of the instruction in front of it
+    for T in ("INTEGER", "BOOLEAN", "CODE", "EXEC", "FLOAT", "NAME"):
+        for a_, b_ in ((T + ".DUP", T + ".POP"), (T + ".SWAP", T + ".SWAP"), ("NOOP", "NOOP"), (T + ".DUP", T + ".DUP")):
+            if a_ not in modelled or b_ not in modelled: continue
+            for head in ([I("CODE.QUOTE")], [I("EXEC.K")], [B(True), I("EXEC.IF")], [Z(2), I("INDEX.DEFINE"), I("EXEC.LOOP")], [I("EXEC.DUP")], [I("EXEC.S")], []):
+                prog = L(Z(1), *(head + [I(a_), I(b_), Z(5), Z(6)]))
+                st = dict(exec=[prog], code=[Z(8), Z(9)], bool=[True, False], int=[3, 4], float=[fbits(1.0), fbits(2.0)], name=["p", "q"])
+                for k in (1, 2, 12):
+                    cases.append(case_run(len(cases) % 2, state(**st), 0, k))
     out.append(Stream("combinator-steps", "run", "run.check", cases, "one step of each control-flow instruction on random stack contents; each of them followed on EXEC by a pending CODE.POP / EXEC.POP / loop continuation / itself, with equal and unequal items on top of CODE (1 and 4 steps)"))
     # loops with richer bodies, step-by-step equality with the model
     cases = []
